@@ -285,6 +285,16 @@ func KBCorpus() []KBSpec {
 			Progs: [][]KReq{{{Op: OpUpdate, Val: v("a"), Sym: SymCorrect}, {Op: OpCreate, Val: v("c")}}, {{Op: OpDelete, Sym: SymCorrect}}},
 			Pick:  FixedPick([][2]int{{0, 0}, {1, 0}, {1, 0}, {1, 0}, {0, 0}, {0, 0}})},
 	)
+	// a refused delete answers with the key-value it read: the revision in its header must not be older than that read
+	cs = append(cs,
+		KBSpec{Note: "guarded delete with a stale revision overlaps an update and an unconditional delete of its key: whatever key-value its refusal carries, the header revision is not below it",
+			Init: []int{InitLive2}, Fix: kbFix,
+			Progs: [][]KReq{{{Op: OpDelete, Sym: SymStale}}, {{Op: OpUpdate, Val: v("u"), Sym: SymCorrect}}, {{Op: OpDelete, Sym: SymZero}}},
+			Pick:  FixedPick([][2]int{{0, 0}, {1, 0}, {1, 0}, {0, 0}, {2, 0}, {2, 0}, {2, 0}, {0, 0}, {0, 0}})},
+		KBSpec{Note: "the same with the stale delete's first read done before the update runs",
+			Init: []int{InitLive2}, Fix: kbFix,
+			Progs: [][]KReq{{{Op: OpDelete, Sym: SymStale}}, {{Op: OpUpdate, Val: v("u"), Sym: SymCorrect}}, {{Op: OpDelete, Sym: SymZero}}},
+			Pick:  FixedPick([][2]int{{0, 0}, {0, 0}, {1, 0}, {1, 0}, {2, 0}, {2, 0}, {2, 0}, {0, 0}, {0, 0}})})
 	cs = append(cs,
 		KBSpec{Note: "async rewrite re-stamps a tombstone (uncertain delete) with a revision above a waiting creator's: the create is refused although the key was deleted all the time",
 			Init: []int{InitLive}, Fix: kbFix, Rewrite: true, RewriteDelete: true,
